@@ -3,11 +3,13 @@ package c11
 import (
 	"fmt"
 	"math"
+	"os"
 	"reflect"
 	"regexp"
 	"strings"
 	"testing"
 
+	"github.com/rulego/streamsql/rsql"
 	"verifharness/internal/pbt"
 )
 
@@ -103,7 +105,7 @@ func runCase(c Case) (res pbt.Result) {
 			return
 		}
 		sql := c.Soup.String()
-		o := parseWD(sql)
+		o := parseAny(sql)
 		ok := totality(&res, sql, o)
 		res.Class("soup", "soup:"+c.Soup.Mode)
 		res.Count("parses", 1)
@@ -112,6 +114,9 @@ func runCase(c Case) (res pbt.Result) {
 		}
 		if len(sql) > 10000 {
 			res.Class("soup>10kB")
+		}
+		if len(sql) > childThreshold {
+			res.Class("soup-in-child-process")
 		}
 		up := strings.ToUpper(sql)
 		kwn := 0
@@ -195,6 +200,9 @@ func runCase(c Case) (res pbt.Result) {
 		switch {
 		case ea.openErr != nil && eb.openErr != nil:
 			res.Class("rejected-at-execute")
+			if os.Getenv("C11_DEBUG") != "" {
+				fmt.Printf("REJ %v :: %s\n", firstLine(ea.openErr), sqlA)
+			}
 		case (ea.openErr != nil) != (eb.openErr != nil):
 			res.Add(pbt.D("layout-exec-accept", "same tokens, different layout: Execute accepts one text only: A=%s err=%v ; B=%s err=%v", short(sqlA), ea.openErr, short(sqlB), eb.openErr))
 		default:
@@ -250,6 +258,15 @@ func firstLine(err error) string {
 // features names the known-finding shapes a case exhibits.
 func features(c Case) []string {
 	var f []string
+	if c.Kind == "soup" && c.Soup != nil {
+		if c.Soup.deepPattern() {
+			f = append(f, "deep-pattern-nesting")
+		}
+		if c.Soup.longInvalidRun() {
+			f = append(f, "long-invalid-run")
+		}
+		return f
+	}
 	s := c.Stmt
 	if c.Kind != "stmt" || s == nil {
 		return f
@@ -277,6 +294,9 @@ func features(c Case) []string {
 			f = append(f, "unaliased-scalar-fn")
 			break
 		}
+	}
+	if s.Window == nil && len(s.With) >= 2 {
+		f = append(f, "with-no-window")
 	}
 	if bt {
 		f = append(f, "backtick-space")
@@ -312,6 +332,27 @@ var spec = pbt.Spec[Case]{
 		}
 		return map[string]any{"kind": "stmt", "sql": c.SQL, "sql2": c.SQL2, "exec": c.Exec, "rows": len(c.Rows)}
 	},
+}
+
+// TestChildParse is the body of the child process used by parseChild; it is a no-op otherwise.
+func TestChildParse(t *testing.T) {
+	path := os.Getenv("C11_CHILD_INPUT")
+	if path == "" {
+		t.Skip("child-process helper")
+	}
+	b, err := os.ReadFile(path)
+	if err != nil {
+		t.Fatal(err)
+	}
+	func() {
+		defer func() {
+			if r := recover(); r != nil {
+				fmt.Printf("C11CHILD panic: %v\n", r)
+			}
+		}()
+		cfg, _, err := rsql.Parse(string(b))
+		fmt.Printf("C11CHILD ok err=%v cfg=%v\n", err != nil, cfg != nil)
+	}()
 }
 
 func TestProp(t *testing.T)    { pbt.RunProp(t, spec) }
